@@ -1,4 +1,6 @@
 //@ item src/sys.rs / struct Poll props=C16
+//@ rw R6 1 <<events: RefCell<Events>,>> => <<pub(crate) events: RefCell<Events>,>>
+//@ rw R6 1 <<level_triggered: Option<RefCell<HashMap<usize, (Raw, polling::Event)>>>,>> => <<pub(crate) level_triggered: Option<RefCell<HashMap<usize, (Raw, polling::Event)>>>,>>
 //@ enditem
 //@ open src/sys.rs / impl Poll
 //@ item src/sys.rs / impl Poll / fn register props=C16 sigonly ret=r
